@@ -202,6 +202,48 @@ def run_scale(sh, Dispatcher, Event):
         sh.violate("dispatch-order", record, "after 60 failed dispatches a normal dispatch called %r" % (calls,))
 
 
+def run_odd_names(sh, Dispatcher, Event):
+    """Event names are strings, any string: empty, blank, digits, dotted, non-ASCII, 'None'.  One listener per name (two
+    for the first), every name dispatched twice: exactly the listeners of that name run, in order, and the queries agree."""
+    names = ["", " ", "0", "a.b", "\u00e9v\u00e9nement", "None", "A", "a"]
+    for rotation in range(len(names)):
+        order = names[rotation:] + names[:rotation]
+        d = Dispatcher()
+        calls = []
+        expect = {}
+        for k, name in enumerate(order):
+            for j in range(2 if k == 0 else 1):
+                def listener(event, event_name, dispatcher, tag=(name, j)):
+                    calls.append((tag, event_name))
+                d.add_listener(name, listener, 5 if j else 0)
+                expect.setdefault(name, []).append((name, j))
+        for name in order:
+            want = sorted(expect[name], key=lambda t: -5 if t[1] else 0)
+            rec = {"kind": "odd-event-names", "registered": order, "dispatched": name}
+            sh.case(("odd-names", rotation, name), True)
+            for again in range(2):
+                del calls[:]
+                try:
+                    d.dispatch(name, Event())
+                except Exception as e:
+                    sh.violate("dispatch-raises", rec, "dispatch(%r) raised %r" % (name, e))
+                    break
+                sh.count("odd_name_dispatches")
+                if calls != [(t, name) for t in want]:
+                    sh.violate("dispatch-order", rec, "dispatch(%r) called %r, expected the listeners %r of that name" % (name, calls, want))
+                    break
+            try:
+                has, got = d.has_listeners(name), d.get_listeners(name)
+            except Exception as e:
+                sh.violate("query-raises", rec, "query for %r raised %r" % (name, e))
+                continue
+            if has is not True or not isinstance(got, list) or len(got) != len(want):
+                sh.violate("query-get-listeners", rec, "has_listeners(%r) = %r, get_listeners(%r) = %r, %d listener(s) registered" % (name, has, name, got if not isinstance(got, dict) else sorted(got), len(want)))
+        if d.has_listeners("never-registered") or d.get_listeners("never-registered"):
+            sh.violate("query-get-listeners", {"kind": "odd-event-names"}, "an unknown event name has listeners")
+    sh.tag("event_names", "empty, blank, digit, dotted, non-ASCII, 'None', case pair")
+
+
 def run_application_events(sh):
     """The three events the application itself dispatches (CONFIG when it is built, PRE_RESOLVE and PRE_HANDLE on
     every run), with listeners registered through the configuration at several priorities: the same rule."""
@@ -394,6 +436,7 @@ def run(sh, spec):
             execute(sh, EventDispatcher, Event, (), {"ops": []})
             sh.case((), False)
             run_scale(sh, EventDispatcher, Event)
+            run_odd_names(sh, EventDispatcher, Event)
             run_application_events(sh)
             return
         firsts = range(spec["first"], min(spec["first"] + spec.get("step", 3), len(OPS)))
